@@ -145,7 +145,7 @@ struct E5 : Engine {
 		Jar jar; std::vector<Issued> issued; std::string last_payload; int64_t timeout = v.get<int>("session.timeout");
 		const J &ops = plan.get("ops"); std::set<std::string> seen_blocks;
 		auto now = []{ return simk::now_us()/1000000; };
-		auto save_with = [&](cppcms::session_pool &pl,Jar &j,const std::string &payload,int age)->Issued { session_interface s(pl,j); s.load(); s.clear(); s.set("d",payload); if(age > 0) s.age(age); s.reset_session(); s.save(); Issued is; is.cookie = j.jar.count(PREFIX) ? j.jar[PREFIX].value : ""; bool ok; is.cipher = is.cookie.empty() ? "" : my_b64url_decode(is.cookie.substr(1),ok); is.data["d"].value = payload; if(age > 0) is.data["_t"].value = std::to_string(age); is.deadline = now() + (age > 0 ? age : timeout); return is; };
+		auto save_with = [&](cppcms::session_pool &pl,Jar &j,const std::string &payload,int age)->Issued { session_interface s(pl,j); s.load(); s.clear(); s.set("d",payload); if(age > 0) s.age(age); else s.default_age();   /* clear() keeps the age loaded from the previous session */ s.reset_session(); s.save(); Issued is; is.cookie = j.jar.count(PREFIX) ? j.jar[PREFIX].value : ""; bool ok; is.cipher = is.cookie.empty() ? "" : my_b64url_decode(is.cookie.substr(1),ok); is.data["d"].value = payload; if(age > 0) is.data["_t"].value = std::to_string(age); is.deadline = now() + (age > 0 ? age : timeout); return is; };
 		for(size_t i=0;i<ops.size() && res.ok;i++){ const J &o = ops.a[i]; std::string op = o.gets("op"); std::string where = "op#" + std::to_string(i) + " " + op;
 			if(op == "save"){ std::string payload = wire::gen_bytes(i*31 + 5,(size_t)std::max<int64_t>(0,std::min<int64_t>(o.geti("len"),70000)),(int)o.geti("fill")); if(o.geti("fill") == 2 && !last_payload.empty()) payload = last_payload;   // identical payload twice
 				Issued is = save_with(pool,jar,payload,(int)o.geti("age",-1)); cnt["saves"]++;
